@@ -14,6 +14,7 @@ R3 index ownership: BlockRing::on_chain_reorganization is called and Block.in_lo
 from .. import gate
 from ..callgraph import CallGraph
 from ..expr import call_name
+from ..expr import Chaser as _Chw
 from ..fields import FieldAnalysis
 from ..paths import Explorer, const_bool, describe_path
 from ..report import Finding, Result
@@ -142,6 +143,20 @@ def lockstep(res, rule, body, start_blocks, direction, accept, what, fixed=None,
                 break
         if not bad_dir and not twice:
             res.sample({"rule": rule, "body": name, "view": view, "sites": [body.loc(b) for b in blocks], "direction": direction, "verdict": "exactly once on every continuing path"})
+
+
+def _reaches_param(b, ch, op):
+    """does this `&mut Block` point at a block that outlives the body (reached through a parameter / captured self)?"""
+    from ..expr import walk
+    for x in walk(ch.origin(op)):
+        if x[0] == "param":
+            return True
+        if x[0] == "local":
+            # async bodies start by moving their captured arguments into named locals: `_3 = move (_1.self)`
+            for d in b.defs(x[1]):
+                if d[0] == "stmt" and d[3][0] == "use" and d[3][1][0] in ("cp", "mv") and 1 <= d[3][1][1][0] <= b.argc:
+                    return True
+    return False
 
 
 def run(prog, tier, extra=None):
@@ -327,6 +342,23 @@ def run(prog, tier, extra=None):
         for s in fa.sites(b, "block::Block", "in_longest_chain"):
             if s[0] == "assign":
                 hits.append((s[1], "in_longest_chain ="))
+        # replacing a stored block wholesale (`mem::swap(&mut loaded, self)`, `*self = loaded`) replaces its flag too
+        BLKREF = "&mutsaito_core::core::consensus::block::Block"
+        chw = None
+        for bb, t in b.calls():
+            n = call_name(t) or ""
+            if n.rsplit("::", 1)[-1] in ("swap", "replace", "take") and "mem::" in n:
+                for a in t["args"]:
+                    if a[0] in ("cp", "mv") and not a[1][1] and b.ty_str(a[1][0]).replace(" ", "") == BLKREF:
+                        chw = chw or _Chw(b)
+                        if _reaches_param(b, chw, a):
+                            hits.append((bb, "whole Block (in_longest_chain included)"))
+        for bb, blk in enumerate(b.blocks):
+            for st in blk["s"]:
+                if st[0] == "=" and st[1][1] == ["deref"] and b.ty_str(st[1][0]).replace(" ", "") == BLKREF:
+                    chw = chw or _Chw(b)
+                    if _reaches_param(b, chw, ("cp", [st[1][0], []])):
+                        hits.append((bb, "whole Block (in_longest_chain included)"))
         for bb, what in hits:
             res.instance(R3)
             if _root(p) not in index_cov:
